@@ -69,6 +69,8 @@ pub enum VClass {
     FullI64,
     /// random signs of extreme magnitude
     ExtremeMixed,
+    /// every limb polynomial has exactly one non-zero coefficient of extreme magnitude
+    MonoEach,
 }
 
 impl VClass {
@@ -84,6 +86,7 @@ impl VClass {
             VClass::Monomial => "monomial",
             VClass::FullI64 => "full_i64",
             VClass::ExtremeMixed => "extreme_mixed",
+            VClass::MonoEach => "mono_each",
         }
     }
     /// bound on |digit| as a power of two exponent (digit magnitude <= 2^bits)
@@ -154,6 +157,14 @@ pub fn gen_column(class: VClass, b: usize, n: usize, size: usize, seed: u64) -> 
             }
         }
         VClass::Zero => {}
+        VClass::MonoEach => {
+            for l in out.iter_mut() {
+                if n > 0 {
+                    let i = r.below(n as u64) as usize;
+                    l[i] = if r.next() & 1 == 0 { hi } else { lo };
+                }
+            }
+        }
         VClass::Monomial => {
             if size > 0 && n > 0 {
                 let j = r.below(size as u64) as usize;
